@@ -183,9 +183,18 @@ def strparts(t):
             rec(x[3])
         elif x[0] == "fstr":
             for p_ in x[1]:
-                out.append(p_)
+                # f"{s}" with no format spec, s itself built from strings, is s
+                if p_[0] == "fmt" and p_[2] == "" and (p_[1][0] == "fstr" or (p_[1][0] == "bin" and p_[1][1] == "+" and _is_strbuild(p_[1])) or (p_[1][0] == "const" and isinstance(p_[1][1], str))):
+                    rec(p_[1])
+                else:
+                    out.append(p_)
         else:
             out.append(x)
+
+    def _is_strbuild(x):
+        if x[0] == "bin" and x[1] == "+":
+            return _is_strbuild(x[2]) or _is_strbuild(x[3])
+        return x[0] == "fstr" or (x[0] == "const" and isinstance(x[1], str))
 
     rec(t)
     merged = []
